@@ -2,8 +2,8 @@ SPECIFICATION Spec
 CONSTANTS
   OPS <- MC_OPS
   SHAPES <- Q_SHAPES
-  RANKS = {1, 2}
-  EPSEXP = {8, 4}
+  RANKS = {1, 3}
+  EPSEXP = {10, 4}
   GUESS = {"none", "fresh", "reused"}
   SEEDS = {1}
   BACKENDS = {"py"}
